@@ -12,6 +12,7 @@ import (
 	"strconv"
 	"strings"
 	"sync"
+	"sync/atomic"
 	"time"
 
 	"github.com/sirupsen/logrus"
@@ -199,6 +200,41 @@ func execAPI(r *row, dir string, parallel bool) {
 	r.Log = parseLog(log)
 }
 
+// dirError: a task whose `dir` cannot be rendered (undefined variable) fails after its context was
+// entered: up and the context's before have run, no hook or command of the task runs, the context's
+// after still runs once, down once at Finish. Judged directly (the shape is outside ContextsTable).
+func dirError(dir string, rep *core.Report) {
+	log := filepath.Join(dir, "log")
+	ctxs := map[string]*runner.ExecutionContext{
+		"c1": runner.NewExecutionContext(nil, "", variables.NewVariables(), []string{echo("up.c1", log)}, []string{echo("down.c1", log)},
+			[]string{echo("cb.c1", log)}, []string{echo("ca.c1", log)}),
+	}
+	tr, _ := runner.NewTaskRunner(runner.WithContexts(ctxs))
+	tr.Stdout, tr.Stderr = ioutil.Discard, ioutil.Discard
+	t := task.FromCommands(echo("body.1", log))
+	t.Name, t.Context, t.Dir = "r1", "c1", "{{.nosuchdirvariable}}"
+	t.Before, t.After = []string{echo("tb.1", log)}, []string{echo("ta.1", log)}
+	err := tr.Run(t)
+	ok := task.FromCommands(echo("body.2", log))
+	ok.Name, ok.Context = "r2", "c1"
+	err2 := tr.Run(ok)
+	tr.Finish()
+	var got []string
+	for _, k := range parseLog(log) {
+		if c, isCtx := k["c"]; isCtx {
+			got = append(got, fmt.Sprintf("%v.%v", k["k"], c))
+		} else {
+			got = append(got, fmt.Sprintf("%v.%v", k["k"], k["r"]))
+		}
+	}
+	want := "up.c1 cb.c1 ca.c1 cb.c1 body.2 ca.c1 down.c1"
+	if err == nil || err2 != nil || strings.Join(got, " ") != want {
+		rep.Add(core.Finding{Prop: "C14", Key: "C14:api-sequential:dir-template-error",
+			What:   fmt.Sprintf("a task whose dir refers to an undefined variable, then a sound task, in one context: errors %v / %v, token log %q, expected an error, no error and %q", err, err2, strings.Join(got, " "), want),
+			Detail: nil})
+	}
+}
+
 // execCancel: every run is in flight (its command sleeps) when the runner is cancelled; an
 // interrupted task has failed, and the context's after hook and down still run for it.
 func execCancel(r *row, dir string) bool {
@@ -207,6 +243,7 @@ func execCancel(r *row, dir string) bool {
 	tr.Stdout, tr.Stderr = ioutil.Discard, ioutil.Discard
 	r.Rets = make([]string, len(r.Runs))
 	expectBodies := 0
+	var returned int32
 	for i := range r.Runs {
 		r.Runs[i].Fails = true // every run that gets as far as its command is interrupted there
 		if expectedRet(*r, i) == "err" {
@@ -230,6 +267,7 @@ func execCancel(r *row, dir string) bool {
 			t := buildTask(i+1, r.Runs[i], log)
 			t.Commands = []string{echo(fmt.Sprintf("body.%d", i+1), log) + "; sleep 20"}
 			err := tr.Run(t)
+			atomic.AddInt32(&returned, 1)
 			switch {
 			case err != nil:
 				r.Rets[i] = "err"
@@ -240,6 +278,9 @@ func execCancel(r *row, dir string) bool {
 			}
 		}()
 	}
+	// cancel only when every run is either inside its command or has returned by itself (start-up
+	// failed, condition false): a Cancel that comes before a run has entered refuses the run, which
+	// is another scenario
 	lim := time.Now().Add(15 * time.Second)
 	for time.Now().Before(lim) {
 		n := 0
@@ -248,7 +289,7 @@ func execCancel(r *row, dir string) bool {
 				n++
 			}
 		}
-		if n >= expectBodies {
+		if n >= expectBodies && n+int(atomic.LoadInt32(&returned)) >= len(r.Runs) {
 			break
 		}
 		time.Sleep(5 * time.Millisecond)
@@ -399,6 +440,7 @@ func Check(env *core.Env, rep *core.Report) *core.Result {
 		note("Contexts_pinned", r, "negative control (every helper re-enters contextForTask): "+r.Violated+" violated")
 	})
 
+	dirError(env.Sub("direrr"), rep)
 	n := 240
 	if thorough {
 		n = 3000
